@@ -148,7 +148,7 @@ func genScenario(t *rapid.T) scenario {
 	sc.Verb = rapid.IntRange(0, 3).Draw(t, "verb")
 	sc.Pkg = rapid.IntRange(0, 3).Draw(t, "viaPackageLevelFunction") == 0
 	sc.FlagsHow = rapid.SampledFrom([]int{0, 0, 1, 2, 3, 4}).Draw(t, "flagsHow")
-	sc.Disturb = rapid.SampledFrom([]int{0, 0, 0, 1, 2, 3, 4, 5, 6, 7}).Draw(t, "disturbance")
+	sc.Disturb = vlib.GenDisturb().Draw(t, "disturbance")
 	if rapid.IntRange(0, 3).Draw(t, "commonAttrs1") == 0 {
 		sc.Common = []vlib.ExpAttr{{Key: "cm", Val: vlib.Value{Kind: "string", V: "common"}}}
 	}
